@@ -12,7 +12,7 @@ from tradingenv.broker.trade import Trade
 from tradingenv.broker.fees import BrokerFees
 from tradingenv.broker.rebalancing import Rebalancing
 from tradingenv.events import EventNBBO
-from tradingenv.contracts import Rate, ES, ZN
+from tradingenv.contracts import Rate, ES, ZN, ETF
 
 from vf import gen, monitor
 from vf.ledger import Ledger
@@ -232,7 +232,29 @@ def history(ctx, props):
         for i in range(n_ops):
             op = rng.choice(["quote", "trade", "trade", "mtm", "val", "weights", "context", "reb"])
             delta_want = None
-            if op == "quote":
+            if op == "reb" and v_prev > 0 and rng.random() < 0.12:
+                # a request that is REFUSED while its trades are computed (it targets a contract that has never been
+                # quoted); the caller catches the error and goes on using the account: quotes, trades and
+                # valuations behave as if the request had never been made (the elapsed interest may be credited)
+                t = t + timedelta(seconds=rng.choice([1, 3600]))
+                ghost = ETF("NEVER_QUOTED")
+                r = Rebalancing(list(cs) + [ghost], [rng.uniform(-0.2, 0.3) for _ in cs] + [0.1], time=t)
+                try:
+                    b.rebalance(r)
+                    refused = False
+                except EndOfEpisodeError:
+                    refused = None
+                except Exception:
+                    refused = True
+                if refused is not None:
+                    ctx.check("C13:rebalance-raises-when-missing", refused, scenario="history", target="never quoted")
+                if isinstance(r.profit_on_idle_cash, float) or hasattr(r.profit_on_idle_cash, "__float__"):
+                    led.interest += float(r.profit_on_idle_cash)
+                ctx.cat("op:rebalance-refused-then-carry-on")
+                ops_log.append(["rebalance-refused"])
+                op = "val"
+                delta_want = None
+            elif op == "quote":
                 c = rng.choice(cs)
                 p = led.pos.get(c, 0.0)
                 liq0 = led.liq(c)
